@@ -171,5 +171,239 @@ theorem sma_on_col (x : Ctx K) (key : String) (m q s0 t0 n : Nat) (g : Nat → K
       simp only [Num.toF_flt, Int.cast_natCast]
       rfl
 
+/-! ### lowest low / highest high of a window -/
+
+/-- `min (f 0) … (f n)` -/
+def rmin : Nat → (Nat → K) → K
+  | 0, f => f 0
+  | n + 1, f => min (rmin n f) (f (n + 1))
+
+/-- `max (f 0) … (f n)` -/
+def rmax : Nat → (Nat → K) → K
+  | 0, f => f 0
+  | n + 1, f => max (rmax n f) (f (n + 1))
+
+theorem rmin_le (n : Nat) (f : Nat → K) : ∀ k, k ≤ n → rmin n f ≤ f k := by
+  induction n with
+  | zero => intro k hk; have : k = 0 := by omega
+            subst this; exact le_refl _
+  | succ n ih =>
+    intro k hk
+    by_cases h : k ≤ n
+    · exact le_trans (min_le_left _ _) (ih k h)
+    · have : k = n + 1 := by omega
+      subst this; exact min_le_right _ _
+
+theorem rmin_mem (n : Nat) (f : Nat → K) : ∃ k, k ≤ n ∧ rmin n f = f k := by
+  induction n with
+  | zero => exact ⟨0, le_refl _, rfl⟩
+  | succ n ih =>
+    obtain ⟨k, hk, e⟩ := ih
+    rcases min_choice (rmin n f) (f (n + 1)) with h | h
+    · exact ⟨k, by omega, by simp only [rmin]; rw [h, e]⟩
+    · exact ⟨n + 1, le_refl _, by simp only [rmin]; rw [h]⟩
+
+theorem le_rmax (n : Nat) (f : Nat → K) : ∀ k, k ≤ n → f k ≤ rmax n f := by
+  induction n with
+  | zero => intro k hk; have : k = 0 := by omega
+            subst this; exact le_refl _
+  | succ n ih =>
+    intro k hk
+    by_cases h : k ≤ n
+    · exact le_trans (ih k h) (le_max_left _ _)
+    · have : k = n + 1 := by omega
+      subst this; exact le_max_right _ _
+
+theorem rmax_mem (n : Nat) (f : Nat → K) : ∃ k, k ≤ n ∧ rmax n f = f k := by
+  induction n with
+  | zero => exact ⟨0, le_refl _, rfl⟩
+  | succ n ih =>
+    obtain ⟨k, hk, e⟩ := ih
+    rcases max_choice (rmax n f) (f (n + 1)) with h | h
+    · exact ⟨k, by omega, by simp only [rmax]; rw [h, e]⟩
+    · exact ⟨n + 1, le_refl _, by simp only [rmax]; rw [h]⟩
+
+/-- a lower bound that is attained is the minimum -/
+theorem rmin_unique (n : Nat) (f : Nat → K) (L : K) (h1 : ∀ k, k ≤ n → L ≤ f k) (h2 : ∃ k, k ≤ n ∧ L = f k) :
+    L = rmin n f := by
+  obtain ⟨k, hk, e⟩ := h2
+  obtain ⟨k', hk', e'⟩ := rmin_mem n f
+  apply le_antisymm
+  · rw [e']; exact h1 k' hk'
+  · rw [e]; exact rmin_le n f k hk
+
+theorem rmax_unique (n : Nat) (f : Nat → K) (H : K) (h1 : ∀ k, k ≤ n → f k ≤ H) (h2 : ∃ k, k ≤ n ∧ H = f k) :
+    H = rmax n f := by
+  obtain ⟨k, hk, e⟩ := h2
+  obtain ⟨k', hk', e'⟩ := rmax_mem n f
+  apply le_antisymm
+  · rw [e]; exact le_rmax n f k hk
+  · rw [e']; exact h1 k' hk'
+
+/-! ### the raw stochastic value the node computes -/
+
+/-- the raw value of `Calc.stoch` once its window of `p` candles is full:
+`100·(cur − LL)/(HH − LL)` (`0.0` on a flat window), a float, NOT rounded -/
+theorem stochSt_eq (x : Ctx K) (p : Nat) (input : String) (hp : 1 ≤ p) (lo hi : Nat → Num K) (cur : Num K)
+    (hlo : ∀ j, j < p → x.reading "low" (some (x.i + 1 - p + j)) = .ok (.num (lo j)))
+    (hhi : ∀ j, j < p → x.reading "high" (some (x.i + 1 - p + j)) = .ok (.num (hi j)))
+    (hc : x.reading input = .ok (.num cur)) :
+    stochSt x (p : Int) input = .ok (.flt (stochOf cur.toF (rmin (p - 1) (fun k => (lo k).toF))
+      (rmax (p - 1) (fun k => (hi k).toF)))) := by
+  have hml := mapM_up1 x p "low" lo hlo
+  have hmh := mapM_up1 x p "high" hi hhi
+  obtain ⟨L, hL⟩ : ∃ L, Num.minList ((List.range p).map lo) = some L := by
+    obtain ⟨n, rfl⟩ : ∃ n, p = n + 1 := ⟨p - 1, by omega⟩
+    simp [List.range_succ_eq_map, Num.minList]
+  obtain ⟨H, hH⟩ : ∃ H, Num.maxList ((List.range p).map hi) = some H := by
+    obtain ⟨n, rfl⟩ : ∃ n, p = n + 1 := ⟨p - 1, by omega⟩
+    simp [List.range_succ_eq_map, Num.maxList]
+  obtain ⟨hL1, y, hy, hL2⟩ := Num.minList_spec _ _ hL
+  obtain ⟨hH1, z, hz, hH2⟩ := Num.maxList_spec _ _ hH
+  obtain ⟨jl, hjl, rfl⟩ := List.mem_map.1 hy
+  obtain ⟨jh, hjh, rfl⟩ := List.mem_map.1 hz
+  have eL : L.toF = rmin (p - 1) (fun k => (lo k).toF) :=
+    rmin_unique _ _ _ (fun k hk => hL1 (lo k) (List.mem_map.2 ⟨k, List.mem_range.2 (by omega), rfl⟩))
+      ⟨jl, by have := List.mem_range.1 hjl; omega, hL2⟩
+  have eH : H.toF = rmax (p - 1) (fun k => (hi k).toF) :=
+    rmax_unique _ _ _ (fun k hk => hH1 (hi k) (List.mem_map.2 ⟨k, List.mem_range.2 (by omega), rfl⟩))
+      ⟨jh, by have := List.mem_range.1 hjh; omega, hH2⟩
+  rw [← eL, ← eH]
+  unfold stochSt
+  dsimp only
+  erw [hml, hmh]
+  simp only [pym_bind_ok, hL, hH, pym_pure, Ctx.num_of hc, Val.asNum_num]
+  by_cases h0 : H.toF - L.toF = 0
+  · have e : (H.sub L).eq (.int 0) = true := by rw [Num.eq_iff]; simpa using h0
+    simp only [e, if_true, stochOf, h0, Num.fl_eq, Int.cast_zero]
+  · have e : (H.sub L).eq (.int 0) = false := by rw [Num.eq_false_iff]; simpa using h0
+    have hd : (H.sub L).toF ≠ 0 := by simpa using h0
+    simp only [e, Bool.false_eq_true, if_false, Num.truediv_ok _ _ hd, pym_bind_ok, stochOf, h0]
+    simp [Num.mul, LawfulPyF.mul_eq]
+
+/-! ### the textbook series and what is stored -/
+
+/-- first index of `%K`: the window of `p` candles, then `smoothK` raw values -/
+def stochTK (p sk : Nat) : Nat := p + sk - 2
+/-- first index of `%D` -/
+def stochTD (p sk sl : Nat) : Nat := p + sk + sl - 3
+
+section series
+variable (p sk sl : Nat) (lo hi x : Nat → K)
+
+/-- the raw stochastic value of candle `j ≥ p − 1`: `100·(x_j − LL)/(HH − LL)` over the lows/highs of
+candles `j − p + 1 … j`, `0` on a flat window -/
+def stExact (j : Nat) : K :=
+  stochOf (x j) (rmin (p - 1) (fun k => lo (j + 1 - p + k))) (rmax (p - 1) (fun k => hi (j + 1 - p + k)))
+
+/-- textbook `%K`: the mean of the last `smoothK` raw values -/
+def stKExact (j : Nat) : K := winMean (stExact p lo hi x) sk j
+/-- textbook `%D`: the mean of the last `slow` values of `%K` -/
+def stDExact (j : Nat) : K := winMean (stKExact p sk lo hi x) sl j
+
+/-- the three textbook series with their warm-up -/
+def stochSeries (j : Nat) : Option K := if j + 1 < p then none else some (stExact p lo hi x j)
+def stochKSeries (j : Nat) : Option K := if j < stochTK p sk then none else some (stKExact p sk lo hi x j)
+def stochDSeries (j : Nat) : Option K := if j < stochTD p sk sl then none else some (stDExact p sk sl lo hi x j)
+
+/-- what the `<name>_k` helper stores (4 decimals, running form over the UNROUNDED raw values) -/
+def stKStored : Nat → K := smaStored defaultRound sk (stochTK p sk) (stExact p lo hi x)
+/-- what the `<name>_d` helper stores (4 decimals, running form over the STORED `%K`) -/
+def stDStored : Nat → K := smaStored defaultRound sl (stochTD p sk sl) (stKStored p sk lo hi x)
+
+def stKSc (j : Nat) : Scalar K := if j < stochTK p sk then .none else .num (.flt (stKStored p sk lo hi x j))
+def stDSc (j : Nat) : Scalar K := if j < stochTD p sk sl then .none else .num (.flt (stDStored p sk sl lo hi x j))
+
+/-- everything the node's step stores on candle `j`: nothing but the own dict of three `None`s
+before the window is full; afterwards the data entry `{stoch, k}`, the two helper readings and the
+own dict `{stoch, k, d}` (still to be rounded to the node's `rounding`) -/
+def stRow (j : Nat) : Option (Val K × Val K × Val K) × Val K :=
+  if j + 1 < p then (none, stochNone)
+  else
+    (some (sdict [("stoch", sc (.flt (stExact p lo hi x j))), ("k", stKSc p sk lo hi x j)],
+            .s (stKSc p sk lo hi x j), .s (stDSc p sk sl lo hi x j)),
+     sdict [("stoch", sc (.flt (stExact p lo hi x j))), ("k", stKSc p sk lo hi x j),
+            ("d", stDSc p sk sl lo hi x j)])
+
+end series
+
+/-! ### reading a finished STOCH candle -/
+
+section cand
+variable (nm : String) (n : Nat)
+
+theorem stochApp_attr (key : String) (hd : NoDot key) (hin : key ∈ Candle.attrNames)
+    (z : Option (Val K × Val K × Val K) × Val K) (c : Candle K) :
+    readingByCandle (stochApp nm n z c) key = readingByCandle c key :=
+  rbc_stochApp nm n key (indep_attr _ _ hd hin) (indep_attr _ _ hd hin) (indep_attr _ _ hd hin)
+    (indep_attr _ _ hd hin) z c
+
+theorem stochApp_own (hn : StochNames nm) (z : Option (Val K × Val K × Val K) × Val K) (c : Candle K) :
+    readingByCandle (stochApp nm n z c) nm = z.2.roundBy n := by
+  unfold stochApp
+  exact readingByCandle_setKey_own nm hn.kN _ _
+
+theorem stochApp_k (hn : StochNames nm) (z : Option (Val K × Val K × Val K) × Val K) (c : Candle K)
+    (hc : Plain c) :
+    readingByCandle (stochApp nm n z c) (nm ++ "_k") = (match z.1 with | none => .none | some (_, b, _) => b) := by
+  unfold stochApp
+  rw [indep_key _ _ hn.kK hn.nK]
+  obtain ⟨d, w⟩ := z
+  cases d with
+  | none => exact readingByCandle_plain _ hn.kK c hc
+  | some abe =>
+    obtain ⟨a, b, e⟩ := abe
+    show readingByCandle (setKey true _ e (setKey true _ b (setKey true _ a c))) _ = b
+    rw [indep_key _ _ hn.kK hn.Kd.symm]
+    exact rbc_data_self _ hn.kK _ (by show dlookup _ c.inds = none; rw [hc.1]; rfl) _
+
+theorem stochApp_d (hn : StochNames nm) (z : Option (Val K × Val K × Val K) × Val K) (c : Candle K)
+    (hc : Plain c) :
+    readingByCandle (stochApp nm n z c) (nm ++ "_d") = (match z.1 with | none => .none | some (_, _, e) => e) := by
+  unfold stochApp
+  rw [indep_key _ _ hn.kd hn.nd]
+  obtain ⟨d, w⟩ := z
+  cases d with
+  | none => exact readingByCandle_plain _ hn.kd c hc
+  | some abe =>
+    obtain ⟨a, b, e⟩ := abe
+    show readingByCandle (setKey true _ e (setKey true _ b (setKey true _ a c))) _ = e
+    exact rbc_data_self _ hn.kd _ (by show dlookup _ c.inds = none; rw [hc.1]; rfl) _
+
+theorem stochApp_data (hn : StochNames nm) (z : Option (Val K × Val K × Val K) × Val K) (c : Candle K)
+    (hc : Plain c) :
+    readingByCandle (stochApp nm n z c) (nm ++ "_data") = (match z.1 with | none => .none | some (a, _, _) => a) := by
+  unfold stochApp
+  rw [indep_key _ _ hn.kD hn.nD]
+  obtain ⟨d, w⟩ := z
+  cases d with
+  | none => exact readingByCandle_plain _ hn.kD c hc
+  | some abe =>
+    obtain ⟨a, b, e⟩ := abe
+    show readingByCandle (setKey true _ e (setKey true _ b (setKey true _ a c))) _ = a
+    rw [indep_key _ _ hn.kD hn.Dd.symm, indep_key _ _ hn.kD hn.DK.symm]
+    exact rbc_data_self _ hn.kD _ (by rw [hc.1]; rfl) _
+
+/-- a field of the data entry -/
+theorem stochApp_field (hn : StochNames nm) (full fld : String) (hs : splitDot full = [nm ++ "_data", fld])
+    (z : Option (Val K × Val K × Val K) × Val K) (c : Candle K) (hc : Plain c) :
+    readingByCandle (stochApp nm n z c) full
+      = (match z.1 with | none => .none | some (a, _, _) => a.nested fld) := by
+  unfold stochApp
+  rw [st_indep_dotted nm full _ fld hs hn.nD]
+  obtain ⟨d, w⟩ := z
+  cases d with
+  | none =>
+    show readingByCandle c full = .none
+    unfold readingByCandle
+    rw [hs, hc.1, hc.2]; rfl
+  | some abe =>
+    obtain ⟨a, b, e⟩ := abe
+    show readingByCandle (setKey true _ e (setKey true _ b (setKey true _ a c))) _ = a.nested fld
+    rw [st_indep_dotted (nm ++ "_d") full _ fld hs hn.Dd.symm, st_indep_dotted (nm ++ "_k") full _ fld hs hn.DK.symm]
+    exact rbc_data_field _ fld full hs c (by rw [hc.1]; rfl) _
+
+end cand
+
 end Numeric
 end Hex
